@@ -116,25 +116,14 @@ def histories(draw: st.DrawFn) -> dict[str, Any]:
 # ------------------------------------------------------------------ oracle pieces
 
 
-def _text_of(action: dict[str, Any]) -> str:
-    return str(RT.exc_class(action["exc"])(action["msg"]))
-
-
 def _model_error_text(spec: dict[str, Any], call: dict[str, Any], model: dict[str, Any]) -> tuple[str, str] | None:
-    """(type, full text) of the error the model predicts for this call, when it is an application raise."""
+    """(type, full text) of the error the model predicts for this call, when it is an application raise.
+
+    The model's text is str(exc) computed without vgi_rpc (KeyError reprs its argument).
+    """
     me = model["error"]
     if me is None or "type" not in me:
         return None
-    m = spec["methods"][call["mid"]]
-    # recover the raising action to recompute str(exc) in the harness (KeyError reprs its argument)
-    cands: list[dict[str, Any]] = []
-    if m["kind"] == "unary":
-        cands = [m["behaviour"]["action"]]
-    else:
-        cands = [m["init"]["action"]] + [s["action"] for s in m.get("steps", []) + m.get("responses", [])]
-    for a in cands:
-        if a["op"] == "raise" and a["exc"] == me["type"] and _text_of(a) == me["text"]:
-            return me["type"], me["text"]
     return me["type"], me["text"]
 
 
